@@ -20,9 +20,13 @@ class SweepMixin(object):
             return
         self.sweeps_by_life[st.life].append(st.t)
         self.ev["sweep"] += 1
-        now = sw["now"]
-        if now != st.t:
-            self.flag({"C12", "C13"}, "sweep computed with a clock other than now", st, {"now": now, "t": st.t})
+        if sw["now"] != st.t or sw["old"] != st.t - EXPIRY:
+            # every time-based promise hangs on this: expiry (C12/C13), usage totals and the status row (C15)
+            self.flag({"C12", "C13"} | ({"C15"} if self.usage_on else set()),
+                      "sweep computed with a clock other than now / a cutoff other than now minus the expiration time", st,
+                      {"now": sw["now"], "old": sw["old"], "t": st.t, "expected_old": st.t - EXPIRY})
+        # the oracles below judge against the true time of the sweep, not against what the service passed down
+        now = st.t
         failed = bool(sw.get("exc")) or bool(st.errors) or bool(st.exc)
         if failed:
             self.sweep_failed_before = True
@@ -67,7 +71,18 @@ class SweepMixin(object):
                     self.ev["c12_must_survive_near_cutoff"] += 1
                 problems = self._survival_problems(st, app, mid)
                 if problems:
-                    self.flag({"C12"}, "sweep removed part of an active/subscribed channel", st,
+                    # a premature expiry also breaks what the other properties promise "until it expires":
+                    # stored messages (C01), a side that has not closed (C08), a held nameplate (C07)
+                    also = set()
+                    if "messages" in problems or ("mailbox" in problems and msgs_of(st.before, app, mid)):
+                        also.add("C01")
+                    if m.open_low and "mailbox" in problems:
+                        also.add("C08")
+                    if "nameplate" in problems and any(n.holders() and n.mid == mid and n.app == app for n in self._np_before.values()):
+                        also.add("C07")
+                    if subs and "mailbox" in problems:
+                        also.add("C02")
+                    self.flag({"C12"} | also, "sweep removed part of an active/subscribed channel", st,
                               {"mailbox": mid, "app": app, "subscribed": subs, "age": age_low,
                                "lost": problems})
             elif age_high > EXPIRY and not subs:
@@ -233,7 +248,14 @@ class SweepMixin(object):
         if not self.blur:
             return set()
         drop = lambda c: Counter((k[0],) + tuple(k[2:]) for k in c.elements())
-        return {"C16"} if drop(got) == drop(exp) else set()
+        if drop(got) == drop(exp):
+            return {"C16"}
+        # same number of records per app but the multiset of start times is not the multiset of blurred true starts:
+        # some record carries a start time that is not within one interval before its object's true start
+        starts = lambda c: Counter((k[0], k[1]) for k in c.elements())
+        if sum(got.values()) == sum(exp.values()) and starts(got) != starts(exp):
+            return {"C16"}
+        return set()
 
     # ------------------------------------------------------------------
     def check_sweep_counts(self, world, st=None):
